@@ -18,6 +18,8 @@ package cachedb
 //@   at call encoding/json.Unmarshal#1 assert arg1 == ptr && bytesof(s, arg0)
 //@   ensures imp(result, called("(*database/sql.DB).Query") && called("(*database/sql.Rows).Next") && called("(*database/sql.Rows).Scan") && called("encoding/json.Unmarshal") && len(s) != 0)
 //@   ensures imp(result, ret("(*database/sql.Rows).Next#1") && ret("(*database/sql.Rows).Scan#1") == nil && ret("encoding/json.Unmarshal#1") == nil)
+// (Scan writes the column into the variable whose address it is given)
+//@   at call (*database/sql.Rows).Scan#1 modifies s
 //@   at call (*database/sql.Rows).Scan#1 assert ret("(*database/sql.Rows).Next#1")
 //@ func Write [C30]
 //@   check none
